@@ -9,6 +9,7 @@ package goframe
 // s.ServeHTTP with an httptest recorder, like the adapter's own tests do.
 
 import (
+	"fmt"
 	"net/http"
 	"net/http/httptest"
 	"strconv"
@@ -24,6 +25,7 @@ import (
 	c19bytes "bytes"
 	c19json "encoding/json"
 	c19fmt "fmt"
+	c19os "os"
 	c19runtime "runtime"
 	c19strings "strings"
 	c19sync "sync"
@@ -104,6 +106,18 @@ type c19Case struct {
 	GaugeAfter            int    `json:"gauge_after"`
 	NodeFound             bool   `json:"node_found"`
 	EscapedPanic          string `json:"escaped_panic"`
+	// the resource node's own event sums (each case has a resource of its own, so they start at 0);
+	// they also see entries made on a private slot chain, which the recorder cannot
+	NodePass          int  `json:"node_pass"`
+	NodeBlock         int  `json:"node_block"`
+	NodeComplete      int  `json:"node_complete"`
+	NodeError         int  `json:"node_error"`
+	PrivateChain      bool `json:"private_chain"`
+	FallbackAvailable bool `json:"fallback_available"`
+	// order of slot callbacks and handler / fallback calls for the resource, e.g. "passed,handler,completed"
+	Seq string `json:"seq"`
+	// request made earlier on the same resource ("" = none): thorough tier, two-request histories
+	History string `json:"history"`
 	Notes                 string `json:"notes,omitempty"`
 }
 
@@ -128,6 +142,7 @@ func (r *c19Recorder) mark(kind, resource string) {
 // c19Rules installs the rule set of one case: exactly one blocking rule for
 // the resource when admitted=false, no rule at all when admitted=true.
 func c19Rules(t *c19testing.T, resource string, admitted bool) {
+	c19TakeBase(resource)
 	rules := []*c19flow.Rule{}
 	if !admitted {
 		rules = append(rules, &c19flow.Rule{Resource: resource, Threshold: 0})
@@ -136,6 +151,31 @@ func c19Rules(t *c19testing.T, resource string, admitted bool) {
 		t.Fatalf("driver set-up: c19flow.LoadRules: %v", err)
 	}
 }
+
+// c19Base is what the resource's node and the recorder log showed when the case began: every case
+// is judged on the difference, so that the second request of a history is judged like a first one.
+type c19BaseT struct{ pass, block, complete, err, logLen int }
+
+var c19Base c19BaseT
+
+func c19TakeBase(resource string) {
+	c19Base = c19BaseT{}
+	if n := c19stat.GetResourceNode(resource); n != nil {
+		c19Base.pass = int(n.GetSum(c19base.MetricEventPass))
+		c19Base.block = int(n.GetSum(c19base.MetricEventBlock))
+		c19Base.complete = int(n.GetSum(c19base.MetricEventComplete))
+		c19Base.err = int(n.GetSum(c19base.MetricEventError))
+	}
+	c19Rec.mu.Lock()
+	c19Base.logLen = len(c19Rec.log)
+	c19Rec.mu.Unlock()
+}
+
+// pair mode (C19_PAIRS=1): c19PairTag makes all cases of one history share a resource
+var (
+	c19PairTag string
+	c19History string
+)
 
 // c19PanicOrigin holds "func@file:line" of the frame that raised the panic
 // last caught by c19Guard ("" if none); c19Finish moves it into the notes.
@@ -174,7 +214,7 @@ func c19Guard(f func()) (escaped string) {
 func c19Finish(t *c19testing.T, c *c19Case) {
 	seq := ""
 	c19Rec.mu.Lock()
-	for _, e := range c19Rec.log {
+	for _, e := range c19Rec.log[c19Base.logLen:] {
 		if e.res != c.Resource {
 			continue
 		}
@@ -199,6 +239,7 @@ func c19Finish(t *c19testing.T, c *c19Case) {
 		c.Notes += "; "
 	}
 	c.Notes += "seq=[" + seq + "]"
+	c.Seq = seq
 	if c19PanicOrigin != "" {
 		c.Notes += "; panic_origin=" + c19PanicOrigin
 		c19PanicOrigin = ""
@@ -206,7 +247,14 @@ func c19Finish(t *c19testing.T, c *c19Case) {
 	if n := c19stat.GetResourceNode(c.Resource); n != nil {
 		c.NodeFound = true
 		c.GaugeAfter = int(n.CurrentConcurrency())
+		c.NodePass = int(n.GetSum(c19base.MetricEventPass)) - c19Base.pass
+		c.NodeBlock = int(n.GetSum(c19base.MetricEventBlock)) - c19Base.block
+		c.NodeComplete = int(n.GetSum(c19base.MetricEventComplete)) - c19Base.complete
+		c.NodeError = int(n.GetSum(c19base.MetricEventError)) - c19Base.err
 	}
+	c.History = c19History
+	c.PrivateChain = c19strings.Contains(c.Notes, "private slot chain")
+	c.FallbackAvailable = !c19strings.Contains(c.Notes, "fallback_option_available=false")
 	var buf c19bytes.Buffer
 	enc := c19json.NewEncoder(&buf)
 	enc.SetEscapeHTML(false) // keep "<nil>" readable
@@ -254,20 +302,47 @@ func c19Matrix(f func(admitted, fallback bool, handler string)) {
 			}
 		}
 	}
+	if c19os.Getenv("C19_PAIRS") == "" {
+		return
+	}
+	// every ordered pair: a first request (decision x handler, default rejection) and then each of
+	// the 12 inputs as the second request on the SAME resource
+	n := 0
+	for _, adm1 := range c19Bools {
+		for _, h1 := range c19Handlers {
+			for _, admitted := range c19Bools {
+				for _, fallback := range c19Bools {
+					for _, handler := range c19Handlers {
+						n++
+						c19PairTag = c19fmt.Sprint(n)
+						c19History = ""
+						f(adm1, false, h1)
+						c19History = c19fmt.Sprintf("adm%t-%s", adm1, h1)
+						f(admitted, fallback, handler)
+						c19PairTag, c19History = "", ""
+					}
+				}
+			}
+		}
+	}
 }
 
 var c19Bools = []bool{true, false}
 var c19Handlers = []string{"ok", "err", "panic"}
 
 func c19Name(ep string, admitted, fallback bool, handler string) string {
+	if c19PairTag != "" {
+		return c19fmt.Sprintf("c19-%s-pair%s", ep, c19PairTag)
+	}
 	return c19fmt.Sprintf("c19-%s-adm%t-fb%t-%s", ep, admitted, fallback, handler)
 }
 
 // <<< C19 COMMON END
 
 type c19GfCase struct {
-	c    *c19Case
-	path string
+	c       *c19Case
+	path    string
+	history string
 }
 
 func TestVerifC19(t *testing.T) {
@@ -290,7 +365,8 @@ func TestVerifC19(t *testing.T) {
 			HandlerCanReturnError: false,
 			Notes:                 "group.Middleware(adapter) + group.ALL(path, handler), no other middleware; ghttp's own server layer recovers panics; err = handler writes status 500",
 		}
-		gc := &c19GfCase{c: c, path: "/" + c.Resource}
+		// routes are registered before the server starts; a path of its own per request of a history
+		gc := &c19GfCase{c: c, path: fmt.Sprintf("/c19-%d", len(cases)), history: c19History}
 		cases = append(cases, gc)
 
 		opts := []Option{WithResourceExtractor(func(*ghttp.Request) string { return c.Resource })}
@@ -323,6 +399,7 @@ func TestVerifC19(t *testing.T) {
 
 	for _, gc := range cases {
 		c := gc.c
+		c19History = gc.history
 		c19Rules(t, c.Resource, c.AdmittedExpected)
 		w := httptest.NewRecorder()
 		r := httptest.NewRequest(http.MethodGet, gc.path, nil)
@@ -331,4 +408,5 @@ func TestVerifC19(t *testing.T) {
 		c.DefaultRejectionSeen = w.Code == http.StatusTooManyRequests
 		c19Finish(t, c)
 	}
+	c19History = ""
 }
